@@ -3,6 +3,7 @@
 from __future__ import annotations
 
 from decimal import Decimal
+from decimal import InvalidOperation
 from functools import wraps
 from typing import TYPE_CHECKING
 from typing import Any
@@ -187,7 +188,7 @@ def decimal_arg(
 
         try:
             return Decimal(val)
-        except ValueError as err:
+        except (ValueError, InvalidOperation) as err:
             if default is not None:
                 return default
             raise FilterArgumentError(
